@@ -17,6 +17,14 @@ CHECKS = {
                 text='bounded symbolic execution of the redaction predicates, rule constants (through RoomVersionId::rules) and redact/redact_in_place on symbolic objects for every key/type string <= N bytes and all 11 room versions; z3 compares with spec tables; counterexamples replayed through the public redact API',
                 note='trusted: MIR dump, library models (str, BTreeMap as association list), spec tables in spec/redaction.py; values abstract except third_party_invite',
                 ref='DESIGN.md §4 C04'),
+    'C08': dict(engine='mirsym', technique=MIRSYM,
+                text='auth_check and everything above the serde seam executed from the MIR of ruma-state-res on a symbolic world (room version 1..11, create / power-levels / join-rules / member state by role, incoming member / message / state / aliases / redaction / third-party-invite / power-levels event with absent / well-typed / malformed fields); z3 decides accepted<=>the authorization rules of the specification (spec/auth_rules.py) and panic-freedom per family and version; counterexamples are concretised to PDUs and replayed through ruma_state_res::event_auth::auth_check',
+                note='trusted: MIR dump, library models, the serde seam (from_raw_json_value / RoomPowerLevelsEvent accessors modelled as absent/ok/malformed fields), the transcription of the rules in spec/auth_rules.py; users of the family @<a-d>:<x-y>; rule 9 decided compositionally (call-site family + unit family with one changed property at a time); signature checks of third-party invites and the restricted-join authoriser signature are not part of auth_check',
+                ref='DESIGN.md §4 C08'),
+    'C12': dict(engine='mirsym', technique=MIRSYM,
+                text='compositional: (D) Ruleset::get_match executed from MIR on a symbolic ruleset with rules of all five kinds (symbolic enabled flags; condition and matcher verdicts arbitrary) - z3 decides that the first enabled rule whose conditions hold is returned, in the order override, content, room, sender, underride, nothing for own events, and which value/mode each kind hands to the matcher; (P) PushCondition::applies for event_match, room_member_count, sender_notification_permission, event_property_is, event_property_contains on a symbolic flattened event and room context against the specification; (W) matches_word for literal patterns on all printable-ASCII values <= 6 bytes / patterns <= 2 bytes against the word-boundary definition',
+                note='partial claim: the glob engine (wildmatch) and the regex generated for wildcard word patterns are library code (abstracted to arbitrary verdicts), FlattenedJson::from_raw (serde_json) is below the seam, non-ASCII text is outside; BTreeMap/IndexSet are library models',
+                ref='DESIGN.md §4 C12'),
     'C10': dict(engine='mirsym', technique=MIRSYM,
                 text='bounded symbolic execution of every validator of ruma-identifiers-validation over every UTF-8 string up to the stated byte bounds (300 bytes for identifiers, so the 255-byte limit and u8 index truncations are inside the bound); z3 decides panic-freedom, accept=>grammar, grammar=>accept, returned separator index',
                 note='trusted: MIR dump, library models (validated against the native build each run), grammar oracles in spec/idgrammar.py; compositional: server-name part proved separately for <= N_A bytes',
